@@ -26,4 +26,5 @@ def units(tier):
     u.append(frame_unit("gate-library", GATE_FILES))
     u.append(dict(kind="func", mechanism="bounded runtime contract (C), native", name="bounded:gate-sequences", module="vf.tasks.t_gates", func="unit_sequences"))
     u.append(dict(kind="func", mechanism="bounded runtime contract (C), native", name="bounded:rotation-gates-concrete-angles", module="vf.tasks.t_gates", func="unit_angles"))
+    u.append(dict(kind="func", mechanism="bounded runtime contract (C), native", name="bounded:composed-gates", module="vf.tasks.t_gates", func="unit_composed"))
     return u
